@@ -45,7 +45,7 @@ func init() {
 			"callback (pool state recycled under overlap) or a nested pack ran; distinct = hash of the (task, op, outcome) sequence. " +
 			"Byte parity with dns.Msg.Pack over all message structures is input-universal and only sampled by the generator.",
 		Assumptions: []string{
-			"packs overlap only at the consume callback (the packer has no other blocking point), which is where the scheduler parks tasks",
+			"packs overlap at the consume callback and in front of every record the packer writes (a scheduling point substituted for its dns.PackRR call in the overlay copy); other instants inside a pack are not interleaved",
 			"GOMAXPROCS=1 so sync.Pool hands the most recently released state to the next pack",
 		},
 		Components: kit.Components{
@@ -156,8 +156,10 @@ func runC15(sc *C15Scenario, tr *kit.Trace) *kit.Result {
 	shared := make([]*dns.Msg, len(sc.Shared))
 	sharedRef := make([][]byte, len(sc.Shared))
 	sharedErr := make([]error, len(sc.Shared))
+	sharedSnap := make([]string, len(sc.Shared))
 	for i, sd := range sc.Shared {
 		shared[i] = c15Msg(sd, "")
+		sharedSnap[i] = msgSnapshot(shared[i])
 		sharedRef[i], sharedErr[i] = shared[i].Copy().Pack()
 	}
 	inCallback := 0
@@ -180,6 +182,11 @@ func runC15(sc *C15Scenario, tr *kit.Trace) *kit.Result {
 				}
 				before := msgSnapshot(m)
 				tag := fmt.Sprintf("t%d.%d", ti, oi)
+				if isShared && before != sharedSnap[op.Shared-1] {
+					// Another task is inside a pack of this message (parked in front of one of
+					// its records): what it has written into the message so far is visible.
+					fail("C15/message-mutated", "%s: shared message seen modified while another pack of it is in flight\nbuilt %s\nseen  %s", tag, sharedSnap[op.Shared-1], before)
+				}
 				overlapped := false
 				called := 0
 				var got []byte
